@@ -84,17 +84,18 @@ def build(group, sanitize=False):
     if g["numpy"] or g.get("pyinc"):
         incs += [f"-I{np.get_include()}", f"-I{sysconfig.get_paths()['include']}"]
     if g["numpy"]:
-        shim = os.path.join(BUILD, f"shim-{group}-{tag}.c")
+        shim = os.path.join(BUILD, f"shim-{group}-{tag}-{os.getpid()}.c")
         with open(shim, "w") as f:
             f.write(g["shim"] + SHIM_TAIL)
         srcs = srcs + [shim]
     cc = ["clang", "-fsanitize=address,undefined", "-fno-omit-frame-pointer", "-O1", "-g"] if sanitize \
         else ["gcc", "-O1", "-g"]
-    cmd = cc + ["-fPIC", "-shared", "-w", "-DNPY_NO_DEPRECATED_API=0"] + incs + srcs + ["-lm", "-o", so + ".tmp"]
+    tmp = f"{so}.{os.getpid()}.tmp"   # several workers may build the same group at once
+    cmd = cc + ["-fPIC", "-shared", "-w", "-DNPY_NO_DEPRECATED_API=0"] + incs + srcs + ["-lm", "-o", tmp]
     p = subprocess.run(cmd, capture_output=True, text=True)
     if p.returncode != 0:
         raise RuntimeError(f"C build of group {group} failed:\n{p.stderr[-3000:]}")
-    os.replace(so + ".tmp", so)
+    os.replace(tmp, so)
     return so
 
 
